@@ -1,5 +1,6 @@
 # -*- coding: utf-8 -*-
 
+import copy
 import json
 from typing import (
     Any,
@@ -206,12 +207,41 @@ class ResolutionContext:
     ) -> Dict[str, Any]:
         cache_key = field_definition, node
         try:
-            return self._argument_values[cache_key]
+            av = self._argument_values[cache_key]
         except KeyError:
             av = self._argument_values[cache_key] = coerce_argument_values(
                 field_definition, node, self.variables
             )
-            return av
+
+        # Every execution of the field gets its own values: the cached
+        # coercion result (and the variable values it refers to) is shared by
+        # all the parents of a list, by aliases using the same variable and,
+        # for subscriptions, by all events; resolvers are free to edit what
+        # they receive.
+        return _copy_values(av) if av else {}
+
+
+def _copy_values(values: Any) -> Any:
+    # Dictionaries and lists are rebuilt iteratively (variable values can be
+    # nested deeper than the recursion limit allows ``copy.deepcopy`` to go),
+    # anything else is deep copied.
+    memo = {}  # type: Dict[int, Any]
+    root = [None]  # type: List[Any]
+    stack = [(values, root, 0)]  # type: List[Tuple[Any, Any, Any]]
+    while stack:
+        source, target, key = stack.pop()
+        if type(source) in (dict, list):
+            if id(source) in memo:
+                target[key] = memo[id(source)]
+            elif type(source) is dict:
+                target[key] = memo[id(source)] = copied = dict.fromkeys(source)
+                stack.extend((v, copied, k) for k, v in source.items())
+            else:
+                target[key] = memo[id(source)] = copied = [None] * len(source)
+                stack.extend((v, copied, i) for i, v in enumerate(source))
+        else:
+            target[key] = copy.deepcopy(source)
+    return root[0]
 
 
 class ResolveInfo:
